@@ -69,6 +69,32 @@ func (P *Prog) symCtx(fn *ssa.Function, v ssa.Value) string {
 	if classifyPath(s).kind != "none" {
 		return s
 	}
+	// a constructor's parameter that becomes the store's live path field *is* that path
+	for _, prm := range fn.Params {
+		tok := "param:" + prm.Name()
+		if !strings.Contains(s, tok) {
+			continue
+		}
+		eachInstr(fn, func(ins ssa.Instruction) {
+			st, ok := ins.(*ssa.Store)
+			if !ok || stripConv(st.Val) != ssa.Value(prm) {
+				return
+			}
+			fa, ok := st.Addr.(*ssa.FieldAddr)
+			if !ok {
+				return
+			}
+			f, _ := fieldOf(fa)
+			for _, fld := range storeLiveField {
+				if f == fld {
+					s = strings.ReplaceAll(s, tok, "field:"+fld)
+				}
+			}
+		})
+	}
+	if classifyPath(s).kind != "none" {
+		return s
+	}
 	rank := map[string]int{"none": 0, "temp": 1, "other": 2, "live": 3}
 	for i, prm := range fn.Params {
 		tok := "param:" + prm.Name()
